@@ -1213,9 +1213,19 @@ Definition HInv (st : hstate) (xs : list bytes) : Prop :=
   h_roots (hs_acc st) = spec_roots xs /\ h_len (hs_acc st) = N.of_nat (length xs) /\
   Forall h32 xs /\ sound (hs_tree st) /\ blocks_stored (hs_tree st) xs.
 
+Lemma HInv_intro st xs :
+  h_roots (hs_acc st) = spec_roots xs -> h_len (hs_acc st) = N.of_nat (length xs) ->
+  Forall h32 xs -> sound (hs_tree st) -> blocks_stored (hs_tree st) xs -> HInv st xs.
+Proof. unfold HInv. tauto. Qed.
+
 Lemma HInv_init : HInv hstate_init [].
 Proof.
-  repeat split; try constructor. apply sound_empty. apply blocks_stored_short. cbn. lia.
+  apply HInv_intro.
+  - reflexivity.
+  - reflexivity.
+  - constructor.
+  - apply sound_empty.
+  - apply blocks_stored_short. cbn. lia.
 Qed.
 
 (* the header depends on roots and length only *)
@@ -1239,8 +1249,9 @@ Proof.
   destruct (carry_loop_ok (length xs) xs None (hs_tree st) true eq_refl Fx (Forall_nil _)) as (m' & E & _ & P).
   cbn [olist] in *. rewrite app_nil_r in *. rewrite E, Hl.
   destruct (P eq_refl Hs Hb) as [(S' & X' & T')|C]; [left|right; exact C].
-  eexists. split; [reflexivity|]. cbn [hs_acc hs_tree]. repeat split; auto.
-  eapply blocks_stored_ext; eauto.
+  eexists. split; [reflexivity|]. cbn [hs_acc hs_tree].
+  split; [|split; auto].
+  split; [auto|split; [auto|split; [auto|split; [auto|eapply blocks_stored_ext; eauto]]]].
 Qed.
 
 Lemma acc_add_ok st xs x : HInv st xs -> h32 x ->
@@ -1249,8 +1260,8 @@ Proof.
   intros (Hr & Hl & Fx & Hs & Hb) Hx. unfold acc_add. rewrite Hr.
   destruct (add_at_ok (length xs) xs x (hs_tree st) eq_refl Fx Hx Hs Hb) as [(m' & E & S' & X' & B')|C];
     [left|right; exact C].
-  rewrite E. eexists. split; [reflexivity|]. cbn [hs_acc hs_tree h_roots h_len].
-  repeat split; auto.
+  rewrite E. eexists. split; [reflexivity|].
+  apply HInv_intro; cbn [hs_acc hs_tree h_roots h_len]; auto.
   - rewrite Hl, app_length. cbn [length]. lia.
   - apply Forall_app. split; auto.
 Qed.
@@ -1262,7 +1273,7 @@ Proof.
   destruct (N.ltb_spec (N.of_nat (length xs)) (N.of_nat l)) as [|_]; [lia|].
   destruct (N.eqb_spec (N.of_nat l) 0) as [E0|N0].
   - left. eexists. split; [reflexivity|]. assert (l = 0) by lia. subst l. cbn [firstn].
-    repeat split; cbn [hs_acc hs_tree h_roots h_len]; auto. apply blocks_stored_short. cbn. lia.
+    apply HInv_intro; cbn [hs_acc hs_tree h_roots h_len]; auto. apply blocks_stored_short. cbn. lia.
   - destruct (N.eqb_spec (N.of_nat l) (N.of_nat (length xs))) as [EL|NL].
     + left. exists st. split; [reflexivity|]. assert (l = length xs) by lia. subst l. now rewrite firstn_all.
     + assert (Hl1 : 1 <= l) by lia. assert (Hl2 : l < length xs) by lia.
@@ -1287,11 +1298,10 @@ Proof.
       specialize (BR (fun i Hi' => path_from_end xs (l - 1) K i Hi') K 0 eq_refl).
       cbn [Nat.pow layer_at] in BR. rewrite Nat.div_1_r in BR. fold pre in BR. fold K in BR.
       rewrite (BR eq_refl).
-      eexists. split; [reflexivity|]. cbn [hs_acc hs_tree h_roots h_len].
-      repeat split; auto.
-      * lia.
-      * subst pre. now apply Forall_firstn'.
-      * subst pre. eapply blocks_stored_firstn; eauto. lia.
+      eexists. split; [reflexivity|].
+      apply HInv_intro; cbn [hs_acc hs_tree h_roots h_len];
+        [reflexivity | rewrite Lpre; reflexivity | subst pre; now apply Forall_firstn' | exact Hs1
+        | subst pre; eapply blocks_stored_firstn; eauto; lia].
 Qed.
 
 (* ------------------------------------------------------------------ *)
@@ -1322,7 +1332,7 @@ Proof.
         [left|right; exact C].
       rewrite N2Nat.id in E. now rewrite E.
     + left. unfold set_len. destruct Hi as (Hr & Hlen & Hrest). rewrite Hlen.
-      destruct (N.ltb_spec (N.of_nat (length xs)) l) as [_|]; [|lia]. repeat split; tauto.
+      destruct (N.ltb_spec (N.of_nat (length xs)) l) as [_|]; [|lia]. unfold HInv. tauto.
 Qed.
 
 Lemma hsteps_inv : forall ops st xs, HInv st xs -> Forall hop_ok ops ->
@@ -1422,13 +1432,14 @@ Theorem rewind ops l : Forall hop_ok ops -> (N.of_nat (adds ops) < 2 ^ 63)%N -> 
 Proof.
   intros F Hb Hl. destruct (hrun_inv ops F Hb) as [Hi|C]; [|right; exact C].
   assert (Hlen : length (hseq ops) <= adds ops).
-  { clear - ops. unfold hseq. assert (G : forall ops xs, length (fold_left seq_step ops xs) <= length xs + adds ops).
-    { induction ops as [|o ops IH]; intros xs; cbn [fold_left adds]; [lia|].
+  { clear. unfold hseq. assert (G : forall os xs, length (fold_left seq_step os xs) <= length xs + adds os).
+    { induction os as [|o os IH]; intros xs; cbn [fold_left adds]; [lia|].
       specialize (IH (seq_step xs o)). destruct o as [h| | |l0]; cbn [seq_step] in *; try lia.
       - rewrite app_length in IH. cbn [length] in IH. lia.
       - destruct (Nat.leb_spec (N.to_nat l0) (length xs)); [rewrite firstn_length in IH|]; lia. }
     specialize (G ops []). cbn [length] in G. lia. }
-  destruct (set_len_ok _ _ l Hi ltac:(lia) Hl) as [(st' & E & Hi')|C]; [left|right; exact C].
+  assert (Hb' : (N.of_nat (length (hseq ops)) < 2 ^ 63)%N) by lia.
+  destruct (set_len_ok (hrun H ops) (hseq ops) l Hi Hb' Hl) as [(st' & E & Hi')|C]; [left|right; exact C].
   pose proof Hi as (_ & _ & Fx & _).
   destruct (header_of_adds (firstn l (hseq ops)) (Forall_firstn' _ _ _ Fx)) as [G1 G2].
   exists st'. split; [exact E|]. split; [apply Hi'|]. split; [now apply get_header_ok|]. auto.
